@@ -17,6 +17,23 @@ CHECKS = {
              'the kernel values.',
         note='Real arithmetic instead of IEEE floats; TF op semantics as implemented in vf/interp.py (validated against '
              'TensorFlow on concrete points per case); z3 soundness; reference predicates vf/specs.py.'),
+    'C04': dict(
+        engine=E1, design_ref='DESIGN.md 3/C04',
+        technique='bounded symbolic execution of the traced TF graph of PWLCalibrationConstraints (Dykstra while-loop unrolled exactly, then _finalize_constraints) + z3 over rational-function terms; witnesses replayed on the real code',
+        text='For every enumerated calibrator configuration (monotonicity x convexity x bounds x clamps x keypoints x '
+             'spacing x iterations) the solver decides over ALL real kernels that the returned kernel is exactly monotone, '
+             'within bounds, convex/concave and clamped as promised (minus the two tolerated relaxations) and that feasible '
+             'kernels are unchanged; NaiveBoundsConstraints likewise for the missing-value output.',
+        note='Real arithmetic; TF op semantics per vf/interp.py (validated per case); z3 soundness; two-stage verdict '
+             '(exact, then margin 1/64 on |w|<=64) so that only violations surviving rounding are reported.'),
+    'C06': dict(
+        engine=E1, design_ref='DESIGN.md 3/C06',
+        technique='bounded symbolic execution of the traced TF graphs of LinearConstraints / CategoricalCalibrationConstraints over every DAG on <=4 nodes up to isomorphism + z3 (QF_LRA; r^2=x contract for the L2 norm)',
+        text='For every partial order on up to 4 (thorough: 5) elements and every enumerated monotonicity / range / '
+             'normalisation / bound setting, the solver decides over ALL real weight matrices that signs, every ordering '
+             'pair, every monotonic- and range-dominance inequality, bounds and the unit norm hold after the constraint, '
+             'and that feasible weights are unchanged.',
+        note='Real arithmetic; Sqrt modelled by its defining contract; L2-norm queries are stretch (inconclusive allowed).'),
 }
 
 NOT_YET = 'check not built yet in this round (work in progress, see DESIGN.md)'
